@@ -1,6 +1,6 @@
 use std::collections::{HashMap, VecDeque};
 use std::env;
-use std::path::{Path, PathBuf};
+use std::path::{Component, Path, PathBuf};
 use std::str::FromStr;
 use std::sync::Arc;
 
@@ -42,8 +42,20 @@ impl FileRange {
 pub struct FilePath(pub PathBuf);
 
 impl FilePath {
+    /// Joins `path` onto this one and resolves `.` and `..` lexically, so that a file reached as
+    /// `dir/sub/../x.td` is the file `dir/x.td` (one path, one `FileId`, one editor buffer).
     pub fn join(&self, path: impl AsRef<Path>) -> FilePath {
-        FilePath(self.0.join(path))
+        let mut joined = self.0.clone();
+        for component in path.as_ref().components() {
+            match component {
+                Component::CurDir => {}
+                Component::ParentDir => {
+                    joined.pop();
+                }
+                component => joined.push(component),
+            }
+        }
+        FilePath(joined)
     }
 
     pub fn parent(&self) -> Option<FilePath> {
